@@ -146,7 +146,7 @@ def run(rep, tier, seed):
     from harness.world import Node  # noqa: F401
     G["n_long"] = 0
     wd, rules, node_map, dfas = c01.prepare(rep, tier, pid=PID)
-    budget = 400 if tier == "quick" else 6000
+    budget = 400 if tier == "quick" else 4500
     cfgp = os.path.join(wd, "MC_Insert.cfg")
     open(cfgp, "w").write(open(os.path.join(SPEC, "MC_Insert.cfg")).read().replace("Budget = 400", f"Budget = {budget}"))
     out = os.path.join(wd, "insert.out")
@@ -164,7 +164,7 @@ def run(rep, tier, seed):
         if el != "metadata":
             elem.setdefault(ru, el)
     G.update(I=I, rules=rules, elem=elem, dfa_sigma={u: list(d.sigma) for u, d in dfas.items()})
-    res = parallel(w_insert, range(len(I)))
+    res = parallel(w_insert, range(len(I)), timeout=7200)
     nI = 0
     for n, outl in res:
         nI += n
